@@ -246,6 +246,12 @@ func (g *grec) declare(r *rng, allowWrong bool) {
 			bdT = "bad"
 		}
 		g.blockDigest = spellAlg(r, alg) + ":" + v
+		if r.chance(1, 14) {
+			g.blockDigest = spellAlg(r, alg) + ":" + pick(r, []string{" ", "\t", "  "}) + v // white space behind the colon: not a digest value
+			if bdT == "ok" {
+				bdT = "bad"
+			}
+		}
 	}
 	if payloadRelevant && g.rtNum != 32 && r.chance(1, 2) {
 		alg := pick(r, algNames)
